@@ -4,6 +4,9 @@
    prec: a token string, its text, the real parse result *)
 EXTENDS KScimText, Json, IOUtils
 Rec == ndJsonDeserialize(IOEnv.TRACE)
+\* failures are also tallied (registers 21 / 22) so that the orchestrator can detect lost output lines
+Tally(r) == TLCSet(r, TLCGet(r) + 1)
+ASSUME TLCSet(21, 0) /\ TLCSet(22, 0)
 VARIABLE l
 NoAtoms == {}
 
@@ -20,11 +23,12 @@ Next == l <= Len(Rec) /\ l' = l + 1
 Judge == l <= Len(Rec) =>
   LET r == Rec[l] IN
     CASE r.a = "rt" ->
-           /\ (RtL1(r) \/ PrintT(<<"L1FAIL", "C42", l, "roundtrip">>))
-           /\ (RtL2(r) \/ PrintT(<<"L2DRIFT", "C42", l>>))
+           /\ (RtL1(r) \/ (Tally(21) /\ PrintT(<<"L1FAIL", "C42", l, "roundtrip">>)))
+           /\ (RtL2(r) \/ (Tally(22) /\ PrintT(<<"L2DRIFT", "C42", l>>)))
       [] r.a = "prec" ->
-           /\ (PrecL1(r) \/ PrintT(<<"L1FAIL", "C42", l, "precedence">>))
-           /\ (PrecL2(r) \/ PrintT(<<"L2DRIFT", "C42", l>>))
+           /\ (PrecL1(r) \/ (Tally(21) /\ PrintT(<<"L1FAIL", "C42", l, "precedence">>)))
+           /\ (PrecL2(r) \/ (Tally(22) /\ PrintT(<<"L2DRIFT", "C42", l>>)))
       [] OTHER -> TRUE
-Consumed == TLCGet("stats").distinct = Len(Rec) + 1 \/ PrintT(<<"NOTCONSUMED", TLCGet("stats").distinct, Len(Rec)>>)
+Consumed == /\ PrintT(<<"SUMMARY", TLCGet(21), TLCGet(22)>>)
+            /\ (TLCGet("stats").distinct = Len(Rec) + 1 \/ PrintT(<<"NOTCONSUMED", TLCGet("stats").distinct, Len(Rec)>>))
 =============================================================================
